@@ -16,9 +16,7 @@ impl Variant {
         let s = TinyStr8::from_bytes(v).map_err(|_| ParserError::InvalidSubtag)?;
 
         if (slen >= 5 && !s.is_ascii_alphanumeric())
-            || (slen == 4
-                && !v[0].is_ascii_digit()
-                && v[1..].iter().any(|c: &u8| !c.is_ascii_alphanumeric()))
+            || (slen == 4 && (!v[0].is_ascii_digit() || !s.is_ascii_alphanumeric()))
         {
             return Err(ParserError::InvalidSubtag);
         }
